@@ -599,7 +599,13 @@ func (an *shapeAn) kinds(t *Sym, fs *factSet, depth int) kindset {
 	case "call":
 		if strings.HasPrefix(t.Name, "assert:") {
 			if r, ok := an.ruleOfTypeString(strings.TrimPrefix(t.Name, "assert:")); ok {
-				return kindset{r: true}
+				// x.(*T) yields a T node. On a nil interface it panics (the assertion rule reports that); on an interface
+				// holding a nil *T (TNIL: the failed result of an earlier comma-ok assertion) it succeeds and yields that nil pointer
+				out := kindset{r: true}
+				if inner := an.kinds(t.Kids[0], fs, depth+1); inner != nil && inner["TNIL"] {
+					out["TNIL"] = true
+				}
+				return out
 			}
 			// assertion to an interface (antlr.ParseTree …): same node, non-nil
 			inner := an.kinds(t.Kids[0], fs, depth+1)
@@ -615,6 +621,26 @@ func (an *shapeAn) kinds(t *Sym, fs *factSet, depth int) kindset {
 			return nil
 		}
 		if t.Name == "extract0" && len(t.Kids) == 1 {
+			// v, ok := x.(*T): v is a T node when x is one, and a nil *T otherwise
+			a := t.Kids[0]
+			if a.Op == "call" && strings.HasPrefix(a.Name, "assert:") && len(a.Kids) == 1 {
+				if r, ok := an.ruleOfTypeString(strings.TrimPrefix(a.Name, "assert:")); ok {
+					inner := an.kinds(a.Kids[0], fs, depth+1)
+					if inner == nil {
+						return kindset{r: true}
+					}
+					out := kindset{}
+					for k := range inner {
+						if k == r {
+							out[r] = true
+						} else {
+							out["TNIL"] = true // the zero value of *T: a nil pointer, which boxed into an interface is not == nil
+						}
+					}
+					base = out
+					break
+				}
+			}
 			return an.kinds(t.Kids[0], fs, depth+1)
 		}
 		n, ok := invokeName(t)
@@ -752,13 +778,17 @@ func (an *shapeAn) kinds(t *Sym, fs *factSet, depth int) kindset {
 	}
 	if fs.has("nonnil", subj) {
 		delete(base, "NIL")
+		delete(base, "TNIL")
 	}
 	if fs.has("nil", subj) {
+		nb := kindset{}
 		if base["NIL"] {
-			base = kindset{"NIL": true}
-		} else {
-			base = kindset{}
+			nb["NIL"] = true
 		}
+		if base["TNIL"] {
+			nb["TNIL"] = true
+		}
+		base = nb
 	}
 	return base
 }
@@ -1094,6 +1124,8 @@ func (an *shapeAn) checkAssert(sf *symFn, x *ssa.TypeAssert, pc *Sym, chain stri
 			switch {
 			case k == "PANIC":
 				continue // reported at the GetChild call
+			case k == "TNIL":
+				continue // an interface holding a nil pointer: the assertion to that pointer type succeeds; the dereference rule reports its use
 			case k == "NIL":
 				bad = "the operand can be nil (" + an.witness(t, fs) + ")"
 			case isCtx && !toIface && k != want:
@@ -1159,8 +1191,16 @@ func (an *shapeAn) checkCall(sf *symFn, c *ssa.Call, pc *Sym, chain string) {
 			}
 			if usedString {
 				arg := cc.Args[0]
-				if mi, ok := arg.(*ssa.MakeInterface); ok {
-					arg = mi.X
+				for {
+					if mi, ok := arg.(*ssa.MakeInterface); ok {
+						arg = mi.X
+						continue
+					}
+					if ci, ok := arg.(*ssa.ChangeInterface); ok {
+						arg = ci.X
+						continue
+					}
+					break
 				}
 				if isTreeType(arg.Type()) {
 					an.checkNonNil(sf, arg, c, pc, chain, "reflect.TypeOf(x).String() with x == nil dereferences a nil reflect.Type")
@@ -1229,7 +1269,7 @@ func (an *shapeAn) checkNonNil(sf *symFn, v ssa.Value, at ssa.Instruction, pc *S
 			typed = false
 			return false
 		}
-		if ks["NIL"] {
+		if ks["NIL"] || ks["TNIL"] {
 			bad = an.witness(t, fs)
 			return false
 		}
